@@ -822,6 +822,18 @@ def classify(ck, cases, tag):
                                 "norm_repaired": len(norm_rep_mis), "norm_current": len(norm_cur_mis)}}
 
 
+def setup():
+    """pre-build the binaries (the engine-linked harness and, for the thorough tier's black box, the server)"""
+    ck = vlib.Check(PID, "quick")
+    try:
+        ok = ck.go_build("./cmd/c20", "c20") is not None and ck.go_build("./cmd/c20bb", "c20bb") is not None and \
+            ck.go_build_repo("./app/ts-server", "ts-server") is not None
+    finally:
+        import shutil
+        shutil.rmtree(ck.work, ignore_errors=True)
+    return 0 if ok else 1
+
+
 def main(ck):
     # known_findings.json is merged from the per-property fragments by tools/merge.py; entries of the committed fragment
     # props/C20/findings.json that have not been merged yet are honoured too (read-only, never written at run time)
